@@ -143,3 +143,7 @@ package security
 //@ watch FC = call FailedBasicAuthCtx
 //@ requires r != nil
 //@ ensures [C08:marker] calls(FC) == 1 && result == ret(FC,0,0)
+
+// the two request-context markers are distinct keys (a bearer authenticator must not
+// overwrite the failed-basic-auth realm marker)
+//@ lemma [C08:distinctkeys] failedBasicAuth != oauth2SchemeName
